@@ -140,7 +140,8 @@ Definition stores (W : Z) (r : req) (m : mem) (x : Z) : option Z :=
   else None.
 
 (* ------------------------------------------------------------------ what the implementation is seen doing *)
-(* the MagicMemoryFL method call made for a request (observed by wrapping read/write/amo);
+(* the MagicMemoryFL method call made for a request (observed by wrapping read/write/amo; the data
+   argument is compared on the access width only, the bytes above it never reach the memory);
    INV/FLUSH make no call *)
 Inductive call := CRead (a n : Z) | CWrite (a n d : Z) | CAmo (code a n d : Z).
 Definition call_of (W : Z) (r : req) : option call :=
@@ -148,7 +149,7 @@ Definition call_of (W : Z) (r : req) : option call :=
   match q_type r with
   | TRead   => Some (CRead (q_addr r) n)
   | TWrite  => Some (CWrite (q_addr r) n (q_data r mod 2 ^ (8 * n)))
-  | TAmo op => Some (CAmo (amo_code op) (q_addr r) n (q_data r))
+  | TAmo op => Some (CAmo (amo_code op) (q_addr r) n (q_data r mod 2 ^ (8 * n)))
   | _ => None
   end.
 
